@@ -75,3 +75,45 @@ Lemma g_re_partial_cmp a b : M_RE_partial_cmp a b = option_map Some (M_RE_cmp a 
 Proof. rewrite canon_re_partial_cmp, canon_re_cmp. reflexivity. Qed.
 Lemma g_re_cmp_lt a b : M_RE_cmp a b = Some Lt <-> (RE_id a < RE_id b)%nat.
 Proof. rewrite canon_re_cmp. split; [intros H; injection H as H; apply Nat.compare_lt_iff; exact H|intros H; f_equal; apply Nat.compare_lt_iff; exact H]. Qed.
+
+(* contains (the membership test of the smart constructors): never panics; a positive answer exhibits an element with
+   the id of x; on a list whose ids increase strictly the answer is exact *)
+Require Constructors ConstructorProofs.
+Lemma g_contains_total v x : exists b, M_fn_contains v x = Some b.
+Proof. rewrite link_contains. eauto. Qed.
+Lemma g_contains_true v x : M_fn_contains v x = Some true -> exists y, In y v /\ RE_id y = RE_id x.
+Proof.
+  rewrite link_contains. intros H. injection H as H. apply ConstructorProofs.contains_true in H as (y & Hy & E).
+  apply in_map_iff in Hy as (y0 & <- & Hy0). exists y0. split; [exact Hy0|]. rewrite !rid_conv in E. lia.
+Qed.
+Fixpoint ids_increase (lo : option nat) (v : list RE) : Prop :=
+  match v with
+  | [] => True
+  | y :: t => match lo with Some i => (i < RE_id y)%nat | None => True end /\ ids_increase (Some (RE_id y)) t
+  end.
+Lemma contains_sorted_exact : forall v lo x, ids_increase lo v ->
+  (Constructors.contains (map conv_re v) (conv_re x) = true <-> exists y, In y v /\ RE_id y = RE_id x).
+Proof.
+  induction v as [|y v IH]; intros lo x Hs.
+  - cbn. split; [discriminate | intros (y & [] & _)].
+  - destruct Hs as [_ Hs]. cbn [map Constructors.contains]. unfold re_eqb. rewrite !rid_conv.
+    destruct (N.of_nat (RE_id y) =? N.of_nat (RE_id x)) eqn:E.
+    + split; [intros _; exists y; split; [left; reflexivity | lia] | reflexivity].
+    + destruct (N.of_nat (RE_id x) <? N.of_nat (RE_id y)) eqn:E2.
+      * split; [discriminate|]. intros (z & [<-|Hz] & Ez); [exfalso; lia|]. exfalso.
+        assert (G : forall t lo', ids_increase (Some lo') t -> forall z', In z' t -> (lo' < RE_id z')%nat).
+        { induction t as [|a t IHt]; intros lo' Ht z' Hz'; [destruct Hz'|]. destruct Ht as [Ha Ht].
+          destruct Hz' as [<-|Hz']; [exact Ha|]. specialize (IHt _ Ht z' Hz'). lia. }
+        specialize (G v (RE_id y) Hs z Hz). lia.
+      * rewrite (IH (Some (RE_id y)) x Hs). split.
+        -- intros (z & Hz & Ez). exists z. split; [right; exact Hz | exact Ez].
+        -- intros (z & [<-|Hz] & Ez); [exfalso; lia|]. exists z. split; assumption.
+Qed.
+Lemma g_contains_sorted v x : ids_increase None v ->
+  (M_fn_contains v x = Some true <-> exists y, In y v /\ RE_id y = RE_id x).
+Proof.
+  intros Hs. rewrite link_contains, <- (contains_sorted_exact v None x Hs). split; [intros H; injection H as H; exact H | intros ->; reflexivity].
+Qed.
+Lemma g_is_atomic k : M_BaseRegLan_is_atomic k = Some true <->
+  match k with BaseRegLan_Empty | BaseRegLan_Epsilon | BaseRegLan_Range _ => True | _ => False end.
+Proof. destruct k; cbn; split; intros H; try exact I; try discriminate H; try destruct H; reflexivity. Qed.
